@@ -11,7 +11,12 @@ import (
 	"github.com/ethereum/go-ethereum/common"
 	"pgregory.net/rapid"
 
+	"github.com/gogo/protobuf/proto"
+
+	govtypes "github.com/cosmos/cosmos-sdk/x/gov/types"
+
 	tsstypes "github.com/teleport-network/teleport/x/xibc/clients/tss-client/types"
+	xibcclient "github.com/teleport-network/teleport/x/xibc/core/client"
 	clienttypes "github.com/teleport-network/teleport/x/xibc/core/client/types"
 	packettypes "github.com/teleport-network/teleport/x/xibc/core/packet/types"
 
@@ -57,8 +62,45 @@ func (c *regCtl) register(t *rapid.T, ci int, acct kit.Account, label string) {
 			entry[n] = a
 		}
 	}
-	w.Chains[ci].RegisterRelayer(acct.Acc, chains, addrs)
+	// the listing order of a proposal is the proposer's choice
+	if len(chains) > 1 && rapid.Bool().Draw(t, label+"/reversed") {
+		for i, j := 0, len(chains)-1; i < j; i, j = i+1, j-1 {
+			chains[i], chains[j] = chains[j], chains[i]
+			addrs[i], addrs[j] = addrs[j], addrs[i]
+		}
+	}
+	c.govRegister(ci, acct, chains, addrs)
 	c.reg[ci][acct.Acc.String()] = entry
+}
+
+// govRegister registers a relayer the way governance does: the content travels inside a transaction (encoded, decoded into a
+// fresh object), stateless validation runs on the decoded object, that same object is stored with the proposal (encoded
+// again) and the stored content is executed by the module's proposal handler on a cache context.
+func (c *regCtl) govRegister(ci int, acct kit.Account, chains, addrs []string) {
+	ch := c.m.W.Chains[ci]
+	cdc := ch.App.AppCodec()
+	if len(chains) == 0 {
+		// ValidateBasic refuses an empty registration; the keeper path stands for a registry entry that lists nothing
+		ch.RegisterRelayer(acct.Acc, chains, addrs)
+		return
+	}
+	hop := func(in govtypes.Content) govtypes.Content {
+		msg, ok := in.(proto.Message)
+		if !ok {
+			kit.Failf("content is no proto message")
+		}
+		bz, err := cdc.MarshalInterface(msg)
+		kit.Must(err, "encode proposal content")
+		var out govtypes.Content
+		kit.Must(cdc.UnmarshalInterface(bz, &out), "decode proposal content")
+		return out
+	}
+	inTx := hop(clienttypes.NewRegisterRelayerProposal("relayer", "relayer registration", acct.Acc.String(), chains, addrs))
+	kit.Must(inTx.ValidateBasic(), "RegisterRelayer proposal ValidateBasic")
+	stored := hop(inTx)
+	cctx, write := ch.Ctx().CacheContext()
+	kit.Must(xibcclient.NewClientProposalHandler(ch.App.XIBCKeeper.ClientKeeper)(cctx, stored), "RegisterRelayer proposal execution")
+	write()
 }
 
 func (c *regCtl) authorised(ci int, acct kit.Account, name string) (string, bool) {
